@@ -4,8 +4,10 @@ import (
 	gocontext "context"
 	"encoding/json"
 	"fmt"
+	"reflect"
 	"runtime"
 	"sort"
+	"strconv"
 	"strings"
 	"sync"
 	"time"
@@ -23,9 +25,11 @@ import (
 	"github.com/orda-io/orda/server/mongodb"
 	"github.com/orda-io/orda/server/notification"
 	"github.com/orda-io/orda/server/redis"
+	"github.com/orda-io/orda/server/schema"
 	"github.com/orda-io/orda/server/service"
 	"github.com/orda-io/orda/server/snapshot"
 	"go.mongodb.org/mongo-driver/bson"
+	"go.mongodb.org/mongo-driver/bson/primitive"
 )
 
 // S-wire / S-req / S-fault-net: real clients (manual sync) and the real OrdaService running
@@ -113,20 +117,25 @@ type wdt struct {
 }
 
 type wworld struct {
-	c       *Ctx
-	e       *wenv
-	kind    string
-	cols    []string
-	clients []*wclient
-	dts     []*wdt
-	evs     []string
-	desc    []string
-	cur     string
-	nontriv bool
-	pubSeen int
-	dirty   bool // an accepted mutated request happened: the quiescence oracle does not apply
-	dbfault bool // a storage command was made to fail: leftovers beyond the end of a log are tolerated by the store oracle
-	faulty  bool // a message fault (duplicated request / dropped response) happened: quiescence is judged under C07
+	c        *Ctx
+	e        *wenv
+	kind     string
+	cols     []string
+	clients  []*wclient
+	dts      []*wdt
+	evs      []string
+	desc     []string
+	cur      string
+	nontriv  bool
+	pubSeen  int
+	dirty    bool // an accepted mutated request happened: the quiescence oracle does not apply
+	dbfault  bool // a storage command was made to fail: leftovers beyond the end of a log are tolerated by the store oracle
+	snapSeen map[string]bool
+	jobs     []wjob
+	realVer  map[string]uint64
+	base     int  // goroutines before the last request was sent
+	snapOff  bool // a storage fault hit the post-response work: the next digest tells the checker to adopt the observed snapshots
+	faulty   bool // a message fault (duplicated request / dropped response) happened: quiescence is judged under C07
 }
 
 func (w *wworld) newClient(col string) *wclient {
@@ -258,6 +267,38 @@ func gClients(v interface{}) string {
 	return gList(items)
 }
 
+// gBson renders a value read back from the store as a Gallina [val]
+func gBson(v interface{}) string {
+	switch t := v.(type) {
+	case int32:
+		return gValParsed(json.Number(strconv.FormatInt(int64(t), 10)))
+	case int64:
+		return gValParsed(json.Number(strconv.FormatInt(t, 10)))
+	case float64:
+		if t != float64(int64(t)) {
+			panic("non-integer number in stored document")
+		}
+		return gValParsed(json.Number(strconv.FormatInt(int64(t), 10)))
+	case string, bool, nil:
+		return gValParsed(t)
+	case bson.A:
+		items := make([]string, len(t))
+		for i, e := range t {
+			items[i] = gBson(e)
+		}
+		return "(VArr " + gList(items) + ")"
+	case bson.D:
+		es := append(bson.D{}, t...)
+		sort.Slice(es, func(i, j int) bool { return es[i].Key < es[j].Key })
+		items := make([]string, len(es))
+		for i, e := range es {
+			items[i] = gPair(gStr(e.Key), gBson(e.Value))
+		}
+		return "(VObj " + gList(items) + ")"
+	}
+	panic(fmt.Sprintf("unsupported stored value %T", v))
+}
+
 type dbView struct {
 	gal  string
 	text string // canonical text, for before/after comparisons in oracles
@@ -281,7 +322,224 @@ func (w *wworld) dbDigest() dbView {
 		ops = append(ops, fmt.Sprintf("(%s, %s, %s, %s)", gStr(bget(o, "duid").(string)), gN(bnum(bget(o, "colNum"))), gN(bnum(bget(o, "sseq"))), oid))
 		fmt.Fprintf(&txt, "O|%v|%v|%v|%v|%v\n", bget(o, "_id"), bget(o, "duid"), bget(o, "colNum"), bget(o, "sseq"), oid)
 	}
-	return dbView{gal: fmt.Sprintf("(mkDbdig %s %s)", gList(dts), gList(ops)), text: txt.String(), dts: dump["-_-Datatypes"], ops: dump["-_-Operations"]}
+	kindOf := map[string]string{}
+	for _, d := range dump["-_-Datatypes"] {
+		kindOf[bget(d, "_id").(string)] = strings.ToLower(bget(d, "type").(string))
+	}
+	// the world checks one kernel: datatypes of another type (created by a request with a mutated type) are left out
+	colNum := map[string]uint64{}
+	for _, cd := range dump["-_-Collections"] {
+		colNum[fmt.Sprint(bget(cd, "_id"))] = bnum(bget(cd, "num"))
+	}
+	kindAt := map[string]string{}
+	for _, d := range dump["-_-Datatypes"] {
+		kindAt[fmt.Sprintf("%d|%v", bnum(bget(d, "colNum")), bget(d, "key"))] = strings.ToLower(bget(d, "type").(string))
+	}
+	var snaps, real []string
+	for _, sn := range dump["-_-Snapshots"] {
+		du := bget(sn, "duid").(string)
+		if kindOf[du] != w.kind {
+			continue
+		}
+		var raw []byte
+		switch b := bget(sn, "snapshot").(type) {
+		case primitive.Binary:
+			raw = b.Data
+		case []byte:
+			raw = b
+		case string:
+			raw = []byte(b)
+		}
+		snaps = append(snaps, fmt.Sprintf("(mkSnapdoc %s %s %s %s)", gStr(du), gN(bnum(bget(sn, "colNum"))), gN(bnum(bget(sn, "sseq"))), gSnapshot(kindOf[du], raw)))
+	}
+	for _, col := range w.cols {
+		for _, d := range dump[col] {
+			if kindAt[fmt.Sprintf("%d|%v", colNum[col], bget(d, "_id"))] != w.kind {
+				continue
+			}
+			var view string
+			switch w.kind {
+			case "counter":
+				view = gBson(bget(d, "counter"))
+			case "list":
+				view = gBson(bget(d, "list"))
+			default:
+				var rest bson.D
+				for _, e := range d {
+					if e.Key != "_id" && e.Key != "_orda_ver_" {
+						rest = append(rest, e)
+					}
+				}
+				view = gBson(rest)
+			}
+			real = append(real, fmt.Sprintf("(mkRealdoc %s %s %s %s)", gStr(col), gStr(fmt.Sprint(bget(d, "_id"))), view, gN(bnum(bget(d, "_orda_ver_")))))
+		}
+	}
+	chk := !w.snapOff
+	w.snapOff = false
+	return dbView{gal: fmt.Sprintf("(mkDbdig %s %s %s %s %s)", gList(dts), gList(ops), gList(snaps), gList(real), gBool(chk)), text: txt.String(), dts: dump["-_-Datatypes"], ops: dump["-_-Operations"]}
+}
+
+// ---------- C11 oracle: stored snapshots and user documents equal the replay of the log up to their version ----------
+func (w *wworld) replayTo(duid, key string, kind model.TypeOfDatatype, v uint64) (iface.Datatype, bool) {
+	cl := orda.NewClient(orda.NewLocalClientConfig("oracle"), "oracle")
+	dt := cl.CreateDatatype(key, kind, nil).(iface.Datatype)
+	dt.SetDUID(duid)
+	if v == 0 {
+		return dt, true
+	}
+	ops, _, err := w.e.mgr.Mongo.GetOperations(w.e.ctx, duid, 1, v)
+	if err != nil || uint64(len(ops)) != v {
+		return nil, false
+	}
+	if _, err := dt.ReceiveRemoteModelOperations(ops, false); err != nil {
+		return nil, false
+	}
+	return dt, true
+}
+
+func jsonEq(a, b []byte) bool {
+	var x, y interface{}
+	if json.Unmarshal(a, &x) != nil || json.Unmarshal(b, &y) != nil {
+		return false
+	}
+	return reflect.DeepEqual(x, y)
+}
+
+func realFields(d bson.D) string {
+	var rest bson.D
+	for _, e := range d {
+		if e.Key != "_id" && e.Key != "_orda_ver_" {
+			rest = append(rest, e)
+		}
+	}
+	return gBson(rest)
+}
+
+func (w *wworld) checkSnapshots() {
+	dump := w.e.fm.Dump("orda")
+	if w.snapSeen == nil {
+		w.snapSeen = map[string]bool{}
+		w.realVer = map[string]uint64{}
+	}
+	type dinfo struct {
+		duid, key string
+		col       uint64
+		kind      model.TypeOfDatatype
+		end       uint64
+	}
+	byDuid := map[string]dinfo{}
+	byKey := map[string]dinfo{}
+	for _, d := range dump["-_-Datatypes"] {
+		sseq, _ := bget(d, "sseq").(bson.D)
+		di := dinfo{bget(d, "_id").(string), bget(d, "key").(string), bnum(bget(d, "colNum")), model.TypeOfDatatype(model.TypeOfDatatype_value[bget(d, "type").(string)]), bnum(bget(sseq, "end"))}
+		byDuid[di.duid] = di
+		byKey[fmt.Sprintf("%d|%s", di.col, di.key)] = di
+	}
+	for _, sn := range dump["-_-Snapshots"] {
+		id := fmt.Sprint(bget(sn, "_id"))
+		if w.snapSeen[id] {
+			continue
+		}
+		w.snapSeen[id] = true
+		di, ok := byDuid[bget(sn, "duid").(string)]
+		v := bnum(bget(sn, "sseq"))
+		if !ok {
+			continue
+		}
+		if v > di.end {
+			w.c.Violate("C11", "snapshot-beyond-log", fmt.Sprintf("snapshot %s has version %d but the log of the datatype ends at %d", id, v, di.end), w.desc)
+			continue
+		}
+		want, ok := w.replayTo(di.duid, di.key, di.kind, v)
+		if !ok {
+			w.c.Violate("C11", "snapshot-version-not-replayable", fmt.Sprintf("snapshot %s: operations 1..%d cannot be replayed", id, v), w.desc)
+			continue
+		}
+		var raw []byte
+		if b, ok := bget(sn, "snapshot").(primitive.Binary); ok {
+			raw = b.Data
+		}
+		_, wantSnap, _ := want.GetMetaAndSnapshot()
+		if !jsonEq(raw, wantSnap) {
+			w.c.Violate("C11", "snapshot-differs-from-replay", fmt.Sprintf("snapshot %s (key %q) is %s but replaying operations 1..%d gives %s", id, di.key, raw, v, wantSnap), w.desc)
+		}
+		w.c.Count("snapshot-compared")
+	}
+	colNum := map[string]uint64{}
+	for _, cd := range dump["-_-Collections"] {
+		colNum[fmt.Sprint(bget(cd, "_id"))] = bnum(bget(cd, "num"))
+	}
+	for _, col := range w.cols {
+		for _, d := range dump[col] {
+			key := fmt.Sprint(bget(d, "_id"))
+			ver := bnum(bget(d, "_orda_ver_"))
+			k := col + "|" + key
+			if old, seen := w.realVer[k]; seen && ver == old {
+				continue
+			} else if seen && ver < old {
+				w.c.Violate("C11", "user-document-version-decreased", fmt.Sprintf("the document of key %q in %s went from version %d to %d", key, col, old, ver), w.desc)
+			}
+			w.realVer[k] = ver
+			di, ok := byKey[fmt.Sprintf("%d|%s", colNum[col], key)]
+			if !ok {
+				w.c.Violate("C11", "user-document-without-datatype", fmt.Sprintf("collection %s holds a document %q that names no datatype", col, key), w.desc)
+				continue
+			}
+			want, ok := w.replayTo(di.duid, di.key, di.kind, ver)
+			if !ok || ver > di.end {
+				w.c.Violate("C11", "user-document-version-not-replayable", fmt.Sprintf("document %q in %s records version %d; the log ends at %d", key, col, ver, di.end), w.desc)
+				continue
+			}
+			m, err := bson.Marshal(want.ToJSON())
+			var wd bson.D
+			if err == nil {
+				err = bson.Unmarshal(m, &wd)
+			}
+			if err != nil || realFields(wd) != realFields(d) {
+				w.c.Violate("C11", "user-document-differs-from-replay", fmt.Sprintf("document %q in %s at version %d is %s but replaying operations 1..%d gives %s", key, col, ver, realFields(d), ver, realFields(wd)), w.desc)
+			}
+			w.c.Count("user-document-compared")
+		}
+	}
+}
+
+// staleUpdate runs UpdateSnapshot once more with a datatype document captured after an earlier push: the
+// background update of that handler happening (again) only now, after later pushes
+func (w *wworld) staleUpdate() {
+	if len(w.jobs) == 0 {
+		return
+	}
+	j := w.jobs[w.c.Rng.Intn(len(w.jobs))]
+	colDoc, _ := w.e.mgr.Mongo.GetCollection(w.e.ctx, j.col)
+	if colDoc == nil {
+		return
+	}
+	doc := *j.doc
+	_ = snapshot.NewManager(w.e.ctx, w.e.mgr, &doc, colDoc).UpdateSnapshot()
+	after := w.dbDigest()
+	w.checkSnapshots()
+	d := j.doc
+	w.evs = append(w.evs, fmt.Sprintf("WSnapUpd %s (mkDdoc %s %s %s %s %s [] []) %s", gStr(j.col), gStr(d.DUID), gStr(d.Key), gN(uint64(d.CollectionNum)),
+		gN(typeNum[d.Type]), gN(d.Sseq.End), after.gal))
+	w.desc = append(w.desc, fmt.Sprintf("snapshot update with the document of key %q captured at end %d", d.Key, d.Sseq.End))
+	w.c.Count("ev-stale-snapshot-update")
+}
+
+// captureJob remembers the datatype document as a handler that just stored operations held it
+func (w *wworld) captureJob(x *wdt) {
+	colDoc, _ := w.e.mgr.Mongo.GetCollection(w.e.ctx, x.owner.col)
+	if colDoc == nil {
+		return
+	}
+	if d, _ := w.e.mgr.Mongo.GetDatatypeByKey(w.e.ctx, colDoc.Num, x.key); d != nil {
+		w.jobs = append(w.jobs, wjob{x.owner.col, d})
+	}
+}
+
+type wjob struct {
+	col string
+	doc *schema.DatatypeDoc
 }
 
 // ---------- C06 oracle: the stored log of every datatype is a gapless exactly-once order ----------
@@ -385,6 +643,7 @@ type exch struct {
 func (w *wworld) call(msg *model.PushPullMessage) exch {
 	ch := make(chan exch, 1)
 	ctx, cancel := gocontext.WithCancel(gocontext.Background())
+	w.base = runtime.NumGoroutine()
 	go func() {
 		r, err := w.e.svc.ProcessPushPull(ctx, msg)
 		cancel()
@@ -395,6 +654,22 @@ func (w *wworld) call(msg *model.PushPullMessage) exch {
 		return r
 	case <-time.After(8 * time.Second):
 		return exch{timeout: true}
+	}
+}
+
+// settle waits until the goroutines started since [base] was sampled (the handler's post-response work:
+// publish, then snapshot update) have finished and the store saw no command for a moment
+func (w *wworld) settle(base int) {
+	deadline := time.Now().Add(3 * time.Second)
+	lastG, lastC, since := runtime.NumGoroutine(), w.e.fm.CmdCount(), time.Now()
+	for runtime.NumGoroutine() > base && time.Now().Before(deadline) {
+		time.Sleep(50 * time.Microsecond)
+		if g, c := runtime.NumGoroutine(), w.e.fm.CmdCount(); g != lastG || c != lastC {
+			lastG, lastC, since = g, c, time.Now()
+		} else if time.Since(since) > 25*time.Millisecond {
+			w.c.Count("settle-by-stability") // the driver or the broker kept a goroutine (a new pooled connection)
+			return
+		}
 	}
 }
 
@@ -516,11 +791,13 @@ func (w *wworld) sync(x *wdt, fault int) {
 		w.c.Violate("C08", "fault-not-reported", fmt.Sprintf("storage command %s failed while serving key %q but the client got a normal response", fg, x.key), w.desc)
 	}
 	if !isErr && pushed > 0 && resp.CheckPoint.Cseq > before0cseq(before, pack.DUID, x.owner.cuid) {
-		if postFault {
-			time.Sleep(5 * time.Millisecond)
-		} else {
+		if !postFault {
 			w.waitPost(x.owner.col, pubsBefore, cmdBefore)
 		}
+	}
+	w.settle(w.base)
+	if postFault {
+		w.snapOff = true
 	}
 	if fault == 1 { // the same request is delivered a second time; the client sees only the second response
 		pubs2 := len(w.e.mq.Published())
@@ -535,10 +812,11 @@ func (w *wworld) sync(x *wdt, fault int) {
 		_ = cmd2
 		resp = ex2.resp.PushPullPacks[0]
 		isErr = resp.GetPushPullPackOption().HasErrorBit()
-		time.Sleep(2 * time.Millisecond)
+		w.settle(w.base)
 	}
 	after := w.dbDigest()
 	w.checkLog(after)
+	w.checkSnapshots()
 	pubG, pubs := w.pubsSince(pubsBefore)
 	// C18: one publish iff at least one operation was stored
 	stored := strings.Count(logPrefix(after), "\nO|") - strings.Count(logPrefix(before), "\nO|") // operations within the recorded logs
@@ -633,6 +911,9 @@ func (w *wworld) sync(x *wdt, fault int) {
 	if len(resp.Operations) > 0 && pushed > 0 {
 		w.nontriv = true // pushed and pulled in one exchange: concurrent writers
 	}
+	if !isErr && stored > 0 {
+		w.captureJob(x)
+	}
 }
 
 // applyHeld delivers a response that was held back (a delayed answer), or a second answer, to the client
@@ -692,9 +973,10 @@ func (w *wworld) resendAndApply(x *wdt, pack *model.PushPullPack) {
 		panic("dup request not answered")
 	}
 	resp := ex.resp.PushPullPacks[0]
-	time.Sleep(2 * time.Millisecond)
+	w.settle(w.base)
 	after := w.dbDigest()
 	w.checkLog(after)
+	w.checkSnapshots()
 	pubG, _ := w.pubsSince(pubsBefore)
 	w.evs = append(w.evs, fmt.Sprintf("WRaw %s %s %s %s %s %s", gStr(x.owner.col), gStr(x.owner.cuid), reqG, gPpp(resp), after.gal, gList(pubG)))
 	w.desc = append(w.desc, fmt.Sprintf("the request of dt%d is delivered again -> opt %d cp %s", x.idx, resp.Option, resp.CheckPoint.ToString()))
@@ -877,8 +1159,10 @@ func (w *wworld) raw(x *wdt) {
 			time.Sleep(200 * time.Microsecond)
 		}
 	}
+	w.settle(w.base)
 	after := w.dbDigest()
 	w.checkLog(after)
+	w.checkSnapshots()
 	if isErr && after.text != before.text {
 		w.c.Violate("C16", "refused-request-changed-store", fmt.Sprintf("request (%s) was refused but the stored data changed", what), w.desc)
 		w.c.Violate("C13", "refused-request-changed-store", fmt.Sprintf("request (%s) was refused but the stored data changed", what), w.desc)
@@ -1059,6 +1343,9 @@ func sliceWire(c *Ctx, kind string) {
 					continue
 				}
 				switch k := c.Rng.Intn(100); {
+				case k < 6 && len(w.jobs) > 0:
+					w.cur = "stale-update"
+					w.staleUpdate()
 				case k < 45:
 					w.cur = "local"
 					w.local(x)
@@ -1117,5 +1404,5 @@ func sliceWire(c *Ctx, kind string) {
 	if c.DbFaults {
 		name = "WireD_" + kind
 	}
-	c.WriteCases(name, "Base Time Ops Counter Map List Datatype Replicas CheckCrdt Server Wire Net CheckWire", "(list (wev "+ty+"))", "check_wire_"+kind, cases, 10)
+	c.WriteCases(name, "Base Time Ops Counter Map List Snapshot Datatype Replicas CheckCrdt Server SnapSrv Wire Net CheckWire", "(list (wev "+ty+"))", "check_wire_"+kind, cases, 10)
 }
